@@ -103,8 +103,8 @@ func TestC06(t *testing.T) {
 
 func TestC08(t *testing.T) {
 	runPkt(t, "C08", "exploration", 40, 60, 70, func(pr *Profile, o *SimOpts) {
-		pr.Send, pr.SoonPct = 40, 30
-	}, map[string]int64{"sends_checked": 400})
+		pr.Send, pr.SoonPct, pr.SendBoundary = 40, 30, 14
+	}, map[string]int64{"sends_checked": 400, "send_guard_checks": 300, "send_boundary_rejected": 30, "send_boundary_accepted": 20})
 }
 
 func TestC11(t *testing.T) {
